@@ -14,4 +14,6 @@ def units(ctx):
     for u in us:
         if u.name.endswith("KmipSession.authenticate"):
             u.bounded = True     # 0..3 authentication blocks
+    from vf import bounded
+    us += bounded.units(["common_names"], ctx)
     return us
